@@ -53,6 +53,7 @@ type entrySpec struct {
 	Workers    int
 	MaxPaths   int
 	NoReplay   bool // counterexamples cannot be replayed natively (contract stubs)
+	PoolReuse  bool // pool=reuse: sync.Pool.Get returns the most recently Put object
 	GoDeferred bool // go=deferred: spawned goroutines run at the next WaitGroup.Wait
 	NoConc     bool // summaries stay symbolic (no forking over their paths)
 }
@@ -124,6 +125,8 @@ func parseHarness(path string) (*harnessFile, error) {
 					e.NoConc = p[1] == "no"
 				case "go":
 					e.GoDeferred = p[1] == "deferred"
+				case "pool":
+					e.PoolReuse = p[1] == "reuse"
 				}
 			}
 			hf.Entries = append(hf.Entries, e)
@@ -504,6 +507,7 @@ func cmdCheck(args []string) int {
 			}
 			cfg.NoSummConc = e.NoConc
 			cfg.GoDeferred = e.GoDeferred
+			cfg.PoolReuse = e.PoolReuse
 			if *maxpaths > 0 {
 				cfg.MaxPaths = *maxpaths
 			}
@@ -599,6 +603,7 @@ func cmdCheck(args []string) int {
 						cfg.MaxSteps = e.Steps
 					}
 					cfg.GoDeferred = e.GoDeferred
+					cfg.PoolReuse = e.PoolReuse
 					ld.apply(e.File)
 					obs, viol, note := interp.RunConcrete(ld.sh, cfg, ld.entries[e.Name], interp.RandomInputs(s), true)
 					var eng []string
